@@ -5,7 +5,7 @@ from engine.driver.encode import Constraint
 
 ID = "C22"
 HARNESS = "C22_events.cpp"
-EXPLANATION = "A free slider (q = q0 + u0 t, exact for every method) carries one or two witness functions q - c with SYMBOLIC thresholds c, a symbolic handler displacement, symbolic final and scheduled times. The real integrator localisation loop (findEventCandidates / bisection-secant in takeOneStep) and the real TimeStepper are executed; on every explored path the solver proves for all values of the symbolic thresholds/times on that path: ReachedEventTrigger => the witness is not yet triggered at tLow and is triggered at tHigh (window brackets the crossing), tHigh - tLow <= the localisation requirement, the returned state is the before-state at tLow, only witnesses that changed sign are listed, handlers are invoked with the state at a time inside the window, scheduled handlers run exactly at their time, integration continues from the state the handler produced."
+EXPLANATION = "A free slider (q = q0 + u0 t, exact for every method) carries one or two witness functions q - c with SYMBOLIC thresholds c, a symbolic handler displacement, symbolic final and scheduled times. The real integrator localisation loop (findEventCandidates / bisection-secant in takeOneStep) and the real TimeStepper are executed; on every explored path the solver proves for all values of the symbolic thresholds/times on that path: every returned time is <= the pending report/final time (also across event handling: a report pending while an event is localised at the same time must be delivered first); ReachedEventTrigger => the witness is not yet triggered at tLow and is triggered at tHigh (window brackets the crossing), tHigh - tLow <= the localisation requirement, the returned state is the before-state at tLow, only witnesses that changed sign are listed, handlers are invoked with the state at a time inside the window, scheduled handlers run exactly at their time, integration continues from the state the handler produced."
 BOUNDS = "integrators ExplicitEuler, RK2, RK3, RKF, RKM, Verlet, SemiExplicitEuler2; directions rising/falling/both; one or two witnesses; path budget 6 quick / 120 thorough per instance; trajectory-consistency obligations with more than 3 inverse variables or 600 terms (several interpolations chained) are left out; witness linear in time"
 NOT_COVERED = "witnesses that are nonlinear in time, tangential crossings, events persisting across many steps, periodic handlers, handlers that terminate, CPodes; paths beyond the budget"
 ASSUMPTIONS = ["thresholds ordered q0 < c0 < c1, positive handler displacement, 0 < scheduled time, final time > 1/64 (input domain)"]
@@ -20,11 +20,16 @@ def instances(tier, seed):
             for mode in ("integ", "stepper"):
                 for two in ("", "two"):
                     if tier == "quick" and ((d == "both" and ig not in ("RungeKuttaMerson",)) or (two and ig not in ("RungeKuttaMerson", "ExplicitEuler"))
-                                            or (d == "falling" and ig not in ("RungeKuttaMerson", "Verlet", "RungeKutta3"))):
+                                            or (d == "falling" and ig not in ("RungeKuttaMerson", "Verlet", "RungeKutta3"))
+                                            or (two and mode == "stepper")):
                         continue
+                    if mode == "integ" and not two and (tier == "thorough" or ig in ("RungeKuttaMerson", "ExplicitEuler", "RungeKutta3", "Verlet")) and d == "rising":
+                        out.append(dict(name="%s/%s/%s/rep" % (ig, d, mode), args=[ig, d, mode, "", "rep"],
+                                        paths=10 if tier == "quick" else 120, base_points=1, flips_per_path=10 if tier == "quick" else 30,
+                                        z3_timeout_ms=15000 if tier == "quick" else 120000, abstract_big=True, max_terms=6000, flip_linear_only=True, pc_filter="linear-first"))
                     out.append(dict(name="%s/%s/%s%s" % (ig, d, mode, "/two" if two else ""), args=[ig, d, mode, two],
                                     paths=6 if tier == "quick" else 120, base_points=1, flips_per_path=6 if tier == "quick" else 30, z3_timeout_ms=15000 if tier == "quick" else 120000,
-                                    abstract_big=True, max_terms=6000, flip_linear_only=True))
+                                    abstract_big=True, max_terms=6000, flip_linear_only=True, pc_filter="linear-first"))
     return out
 
 
@@ -50,7 +55,7 @@ def input_domain(enc, inst):
     d = _inp(enc, "delta")
     cs.append(Constraint(2, P.sub(d, P.const(P.Fraction(1, 64))), "delta>1/64"))
     cs.append(Constraint(4, P.sub(d, P.const(1)), "delta<1"))
-    for n in ("tf", "tsched"):
+    for n in ("tf", "tsched", "rep"):
         if n in t.input_by_name:
             x = _inp(enc, n)
             cs.append(Constraint(2, P.sub(x, P.const(P.Fraction(1, 64))), n + ">1/64"))
@@ -75,6 +80,9 @@ def obligations(enc, inst, tr):
         disp = {}
         for c in range(n):
             st = int(tr.note("status%d" % c))
+            if ("target%d" % c) in tr.outputs:
+                obs.append(Ob("call %d (status %d): returned time <= pending report/final time" % (c, st),
+                              [Constraint(5, P.sub(enc.out("t%d" % c), enc.out("target%d" % c)), "t<=target")]))
             if st != 2:
                 continue
             tlow, thigh, t = enc.out("tlow%d" % c), enc.out("thigh%d" % c), enc.out("t%d" % c)
@@ -82,6 +90,16 @@ def obligations(enc, inst, tr):
             obs.append(Ob("call %d: before-state is returned at tLow, tLow < tHigh, width <= requirement" % c,
                           [Constraint(1, P.sub(t, tlow), "t=tLow"), Constraint(4, P.sub(tlow, thigh), "tLow<tHigh"),
                            Constraint(5, P.sub(P.sub(thigh, tlow), P.scale(wreq, 1)), "width<=accuracy*timescale*0.1")]))
+            if two:
+                # each witness whose crossing lies in the window must have been localised to ITS OWN required window
+                qr = enc.out("qret%d" % c)
+                qh = P.add(qr, R.mul(u0, P.sub(thigh, tlow)))
+                imps = []
+                for k, cth in enumerate(cs):
+                    wk = enc.out("wreq%d" % k)
+                    imps.append("(=> (and (<= %s 0.0) (>= %s 0.0)) (<= %s 0.0))" % (R.smt(P.sub(qr, cth)), R.smt(P.sub(qh, cth)), R.smt(P.sub(P.sub(thigh, tlow), wk))))
+                o2 = Ob("call %d: window no wider than the requirement of every witness that crosses inside it" % c, [], extra_smt=["(not (and %s))" % " ".join(imps)])
+                obs.append(o2)
             # the reported before-state is on the pre-event trajectory: q(tLow) = qret
             # triggered witnesses bracket their crossing: value not triggered at tLow (using the returned state), triggered at tHigh
             qret = enc.out("qret%d" % c)
